@@ -52,6 +52,9 @@ MUTANTS = [
     ('c17-natural-ord', [('src/rtree_nn.rs', '        other\n            .distance\n            .partial_cmp(&self.distance)', '        self\n            .distance\n            .partial_cmp(&other.distance)')], {'C17': ['R1']}),
     ('c17-distance2-root', [('src/rtree_nn.rs', '        self.loc().distance_squared(DVec3 {\n            x: point[0],\n            y: point[1],\n            z: point[2],\n        })', '        self.loc().distance(DVec3 {\n            x: point[0],\n            y: point[1],\n            z: point[2],\n        })')], {'C17': ['R5']}),
     ('c19-intersect-planes-swapped', [('src/geometry.rs', 'pub fn signed_volume_tet(v0: DVec3, v1: DVec3, v2: DVec3, v3: DVec3) -> f64 {\n    let v01 = v1 - v0;\n    let v02 = v2 - v0;', 'pub fn signed_volume_tet(v0: DVec3, v1: DVec3, v2: DVec3, v3: DVec3) -> f64 {\n    let v01 = v2 - v0;\n    let v02 = v1 - v0;')], {'C19': ['R4'], 'C01': ['R6']}),
+    ('c20-single-point-sphere-empty-again-F6', [('src/geometry.rs', '            0 => Self::EMPTY,\n            1 => Self::new(points[0], 0.),\n', '            0 | 1 => Self::EMPTY,\n')], {'C20': ['R4']}),
+    ('c20-welzl-point-added-when-contained', [('src/bounding_sphere.rs', '        if !solution.contains(point) {', '        if solution.contains(point) {')], {'C20': ['R5']}),
+    ('c20-epos6-spheres-grow-by-full-gap', [('src/bounding_sphere.rs', 'let delta = 0.5 * (dist - bounding_sphere.radius + sphere.radius);', 'let delta = dist - bounding_sphere.radius + sphere.radius;')], {'C20': ['R6']}),
     ('c20-cwidth-x-again-F5', [('src/space.rs', 'y: j as f64 * c_width.y,', 'y: j as f64 * c_width.x,')], {'C20': ['R1']}),
     ('c01-cycle-start-fixup-wrong', [('src/simple_cycle.rs', '                if self.start == tri[j] {', '                if self.start == tri[k] {')], {'C01': ['R7']}),
     ('c01-cycle-extend-wrong-successor', [('src/simple_cycle.rs', '                self.ptrs[tri[i]] = tri[j];', '                self.ptrs[tri[i]] = tri[k];')], {'C01': ['R7']}),
